@@ -100,6 +100,8 @@ def h_stopping(sym, mode="min", typ="stopping", B=1, perb=False, T=3, E=8, W=2, 
         else:
             expect = "CONTINUE"
         sym.event("t%d r=%d -> %s (expect %s)" % (tid, r, d, expect))
+        if expect is None:
+            sym.fragile()
         if expect is not None:
             sym.check(d == expect, "C03.decision", "trial %d level %d bracket %d: got %s, quantile rule says %s" % (tid, r, b, d, expect))
         else:
